@@ -24,7 +24,9 @@ RULE = (
     "labels (on the dimensions that variable has) is entirely null, or a "
     "label is absent; the report must equal that set, in itertools.product "
     "order of the coordinates, without duplicates; after harvesting the "
-    "report, nothing is missing.  Non-trivial = >=2 variables with different "
+    "report, nothing is missing; in a half of the cases the first one or two "
+    "reported locations are then filled IN PLACE in the same object and the "
+    "same object is asked again.  Non-trivial = >=2 variables with different "
     "null masks, or partial nulls along an ignored dimension."
 )
 ASSUMPTIONS = [
@@ -176,6 +178,42 @@ def run_case(case):
 
     require(ds.identical(before), "input-modified", "dataset was modified")
 
+    # ---- the user fills some of the reported locations IN PLACE and asks
+    # the same object again
+    refilled = False
+    if case.get("refill") and want:
+        ds_w = ds                       # the very object queried above
+        info2 = {n: (vd, vals.copy()) for n, (vd, vals) in info.items()}
+        for loc in want[:case["refill"]]:
+            setting = dict(zip(fn_args, loc))
+            for name, (vd, vals) in info2.items():
+                index = tuple(
+                    [models.plain(c) for c in coords[d]].index(setting[d])
+                    if d in setting else slice(None) for d in vd)
+                vals[index] = 7.25
+                ds_w[name].values[index] = 7.25
+        with under_test("find_missing_cases (same object, filled in place)"):
+            _, missing2 = find_missing_cases(ds_w, ignore_dims=ign_arg,
+                                             method=method)
+            flags = [bool(is_case_missing(ds_w, dict(zip(fn_args, loc)),
+                                          method=method))
+                     for loc in want[:case["refill"]]]
+        want2 = [tuple(models.plain(v) for v in loc)
+                 for loc in itertools.product(*[coords[a] for a in fn_args])
+                 if model_missing(info2, coords, dict(zip(fn_args, loc)),
+                                  method)]
+        got2 = [tuple(models.plain(v) for v in m) for m in missing2]
+        require(got2 == want2, "stale-answer-after-in-place-change",
+                lambda: f"after filling {want[:case['refill']]} in place the "
+                        f"same object reports {got2!r:.300}, expected "
+                        f"{want2!r:.300}")
+        require(not any(flags), "stale-answer-after-in-place-change",
+                f"is_case_missing still True at {want[:case['refill']]} "
+                f"after they were filled in place: {flags}")
+        refilled = True
+        ds, info = ds_w, info2
+        want, missing = want2, missing2
+
     # ---- find -> harvest -> find
     looped = False
     if case.get("loop") and all(set(pnames) <= set(v["dims"])
@@ -277,7 +315,8 @@ def strategy(draw):
     case = {"dims": dims, "isizes": isizes, "vars": vars_,
             "method": draw(st.sampled_from(["isnull", "isnull", "isfinite"])),
             "ignore_spelling": draw(st.sampled_from(["set", "list", "str"])),
-            "loop": draw(st.booleans())}
+            "loop": draw(st.booleans()),
+            "refill": draw(st.sampled_from([0, 0, 1, 2]))}
     if draw(st.booleans()):
         # a query: some dims by combos, the others by cases, incl. absent
         k = draw(st.integers(0, nd))
